@@ -941,8 +941,12 @@ class EqCongurentPredMacro(Macro):
             args_pair = [(i, j) for i, j in zip(pred_fun.strip_comb()[1], concl.arg.strip_comb()[1])]
         if len(preds) > 1:
             preds_pair = [(i.arg.lhs, i.arg.rhs) for i in preds]
+            # every argument position needs its own equation
+            if len(preds_pair) != len(args_pair):
+                raise VeriTException("eq_congruent_pred", "number of equations does not match the arity")
         else:
-            preds_pair = [(preds[0].arg.lhs, preds[0].arg.rhs), (preds[0].arg.lhs, preds[0].arg.rhs)]
+            # a single equation may justify all argument positions
+            preds_pair = [(preds[0].arg.lhs, preds[0].arg.rhs)] * len(args_pair)
 
         for arg, pred in zip(args_pair, preds_pair):
             if arg == pred:
